@@ -99,7 +99,7 @@ structure FIBDemuxCfg where
   default : Option Dev := none
 deriving Repr
 
-/-- the `try:` block once `assert self.outs` has passed: `self.outs[self._fib[flow]].put(packet)`,
+/-- the `try:` block once the `if not self.outs` test has passed: `self.outs[self._fib[flow]].put(packet)`,
 `KeyError`/`IndexError` handled by the default output -/
 def FIBDemux.lookup (outs : List Dev) (fib : List (Int × Int)) (dflt : Option Dev) (p : Pkt) : List Delivery :=
   match dget fib p.flowId with
@@ -109,12 +109,13 @@ def FIBDemux.lookup (outs : List Dev) (fib : List (Int × Int)) (dflt : Option D
     | none => toDefault dflt p              -- IndexError
     | some d => [(d, p.ref)]
 
-/-- the `else:` branch: `assert self.outs` is *not* among the handled exceptions -/
-def FIBDemux.viaTable (c : FIBDemuxCfg) (fib : List (Int × Int)) (p : Pkt) : Result :=
+/-- the `else:` branch: `if not self.outs: raise IndexError(...)` inside the `try` — without output devices (`None` or
+empty list) every flow is an unknown flow and goes to the default output -/
+def FIBDemux.viaTable (c : FIBDemuxCfg) (fib : List (Int × Int)) (p : Pkt) : List Delivery :=
   match c.outs with
-  | none => .error .assertionError
-  | some [] => .error .assertionError
-  | some (o :: os) => .ok (FIBDemux.lookup (o :: os) fib c.default p)
+  | none => toDefault c.default p
+  | some [] => toDefault c.default p
+  | some (o :: os) => FIBDemux.lookup (o :: os) fib c.default p
 
 /-- `FIBDemux.put` -/
 def FIBDemux.put (c : FIBDemuxCfg) (p : Pkt) : Result :=
@@ -123,7 +124,7 @@ def FIBDemux.put (c : FIBDemuxCfg) (p : Pkt) : Result :=
   | some fib =>
     match dget c.ends p.flowId with
     | some d => .ok [(d, p.ref)]
-    | none => FIBDemux.viaTable c fib p
+    | none => .ok (FIBDemux.viaTable c fib p)
 
 /-! ### the packet switches (what their constructors wire; output `i` is the switch's `i`-th egress) -/
 
@@ -223,24 +224,60 @@ def NSplitter.put (outs : List (Option Dev)) (p : Pkt) (fresh : Nat) : Result :=
   | [] => .error .indexError
   | o :: rest => .ok (giveOriginal o p ++ giveCopies p.ref fresh rest)
 
-/-! ### packet headers (for "independent copies") -/
+/-! ### packet objects on a heap (for "independent copies")
 
-/-- header fields of a packet object -/
-abbrev Hdr := Nat → Int
+A packet object has scalar header fields (`time`, `size`, `src`, `dst`, `flow_id`, …: rebinding an attribute) and two
+table-valued attributes, `perhop_time` and `priorities`, that are *references* to dict objects which ports and schedulers
+update in place.  `Packet.__copy__` gives the copy the same field values and **new** tables with the same contents. -/
 
-/-- the packet objects that exist and their header fields -/
-abbrev Heap := PktRef → Option Hdr
+/-- the table-valued attributes of a packet -/
+inductive Tab where
+  | perhop | priorities
+deriving DecidableEq, Repr
 
-/-- `copy(packet)`: a new object with the same field values -/
-def Heap.alloc (h : Heap) (r : PktRef) (v : Option Hdr) : Heap := fun x => if x = r then v else h x
+/-- identity of a dict object: the packet object it was created for, and for which attribute -/
+abbrev TabRef := PktRef × Tab
 
-/-- `obj.field = v` -/
+structure Obj where
+  /-- scalar header fields -/
+  hdr : Nat → Int
+  /-- which dict object each table-valued attribute refers to -/
+  tab : Tab → TabRef
+
+structure Heap where
+  objs : PktRef → Option Obj
+  /-- contents of the dict objects -/
+  tabs : TabRef → Nat → Option Int
+
+/-- `obj.field = v` (rebinding an attribute) -/
 def Heap.setField (h : Heap) (r : PktRef) (f : Nat) (v : Int) : Heap :=
-  fun x => if x = r then (h x).map (fun hd g => if g = f then v else hd g) else h x
+  { h with objs := fun x => if x = r then (h.objs x).map (fun o => { o with hdr := fun g => if g = f then v else o.hdr g })
+                            else h.objs x }
 
-/-- the heap after a splitter dispatch: every delivered object other than the original was allocated as a copy of it -/
+/-- `obj.<table>[k] = v` (in-place update of the dict the attribute refers to) -/
+def Heap.tabWrite (h : Heap) (r : PktRef) (w : Tab) (k : Nat) (v : Int) : Heap :=
+  match h.objs r with
+  | none => h
+  | some o => { h with tabs := fun t => if t = o.tab w then (fun k' => if k' = k then some v else h.tabs t k') else h.tabs t }
+
+/-- `obj.field` -/
+def Heap.readField (h : Heap) (r : PktRef) (f : Nat) : Option Int := (h.objs r).map fun o => o.hdr f
+
+/-- `obj.<table>.get(k)` -/
+def Heap.readTab (h : Heap) (r : PktRef) (w : Tab) (k : Nat) : Option (Option Int) :=
+  (h.objs r).map fun o => h.tabs (o.tab w) k
+
+/-- `Packet.__copy__`: the new object `r` gets the field values of `orig` and new dicts with the contents of `orig`'s -/
+def Heap.copyPkt (h : Heap) (orig r : PktRef) : Heap :=
+  match h.objs orig with
+  | none => h
+  | some o =>
+    { objs := fun x => if x = r then some { hdr := o.hdr, tab := fun w => (r, w) } else h.objs x,
+      tabs := fun t => if t.1 = r then h.tabs (o.tab t.2) else h.tabs t }
+
+/-- the heap after a splitter dispatch: every delivered object other than the original was made by `copy(orig)` -/
 def splitHeap (h : Heap) (orig : PktRef) : List Delivery → Heap
   | [] => h
-  | (_, r) :: rest => splitHeap (if r = orig then h else h.alloc r (h orig)) orig rest
+  | (_, r) :: rest => splitHeap (if r = orig then h else h.copyPkt orig r) orig rest
 
 end Route
